@@ -8,7 +8,7 @@ counts and box moments mapped through the affine map)."""
 
 import numpy as np
 
-from .. import contracts, gen, geom
+from .. import aging, contracts, gen, geom
 
 PROPERTY = "C02"
 RULE = ("G-mesh: voxel solids (U, C, staircase, frames with a through-hole, random face-connected manifolds) under rigid "
@@ -23,7 +23,7 @@ ANCHORS = ["coxeter.shapes.polyhedron:Polyhedron.volume", "coxeter.shapes.polyhe
            "coxeter.extern.polytri.polytri:triangulate"]
 REQUIRED_MONITORS = ["Polyhedron.volume", "Polyhedron.surface_area", "Polyhedron.get_face_area", "Polyhedron.centroid",
                      "Polyhedron.inertia_tensor", "oracle-second-opinion:voxel-closed-form"]
-REQUIRED_CLASSES = ["kind:voxel", "kind:extrusion", "kind:perturbed", "kind:convexcopy", "genus:1", "not-star-shaped"]
+REQUIRED_CLASSES = ["kind:voxel", "kind:extrusion", "kind:perturbed", "kind:convexcopy", "genus:1", "not-star-shaped", "history:aged-object"]
 
 
 def ncases(tier):
@@ -152,6 +152,23 @@ def run_case(i, rng, rec, tier, state):
               and np.all(np.abs(I2 - F["I"]) <= 1e-9 * F["V"] * F["L"] ** 2))
         rec.check("oracle-second-opinion:voxel-closed-form", ok, "oracle/tetrahedra-vs-voxel-closed-form-disagree",
                   {"cells": c["cells"], "A": A, "t": t})
+    # one case in four goes on with the same object: resized, moved, reoriented (diagonalize_inertia), to_hoomd through the
+    # public API and read again; the postconditions judge against the current vertices and faces
+    if i % 4 == 3:
+        hist = aging.age(s, rng, allow=("size", "move", "rigid"), reads=False)
+        rec.cls("history:aged-object")
+        if np.all(np.isfinite(np.asarray(s.vertices, float))):
+            for m in ["volume", "surface_area", "centroid", "inertia_tensor"]:
+                try:
+                    getattr(s, m)
+                except Exception as e:
+                    rec.violation("Polyhedron." + m, f"Polyhedron.{m}/raises-after-history-{type(e).__name__}", _wit(s, exc=repr(e)[:300], history=hist))
+            try:
+                s.get_face_area()
+            except Exception as e:
+                rec.violation("Polyhedron.get_face_area", f"Polyhedron.get_face_area/raises-after-history-{type(e).__name__}", _wit(s, exc=repr(e)[:300], history=hist))
+        else:
+            rec.violation("Polyhedron.vertices", "Polyhedron/non-finite-vertices-after-history", {"V": V, "history": hist})
     if (not star) or c["genus"] >= 1 or c["offset_ratio"] >= 1:
         rec.nontriv(V, faces)
     if i < 5:
